@@ -320,7 +320,9 @@ def common_hypernyms(
     from_self = _hypernym_paths(synset, simulate_root, True)
     from_other = _hypernym_paths(other, simulate_root, True)
     common = set(flatten(from_self)).intersection(flatten(from_other))
-    return sorted(common)
+    # sort a list in path order (sorting is stable) rather than the set:
+    # inferred synsets all compare equal and would keep the set's order
+    return sorted(unique_list(ss for ss in flatten(from_self) if ss in common))
 
 
 def lowest_common_hypernyms(
